@@ -19,6 +19,7 @@ func init() {
 			"This is neither a proof of race freedom (objects are abstracted by type and field; memory reached only through locals is ignored; the single-client assumption orders RPC handlers) nor free of idiom tables; every table entry is printed in the evidence.",
 		RuleDocs: []string{
 			"C17.R1 role-pair conflicts on a field: write + concurrent access, no common mutex, not ordered by any of the listed mechanisms",
+			"C17.R2 (joins) a WaitGroup join requires an Add that dominates the go statement in the spawner; an Add made inside the goroutine is reported",
 			"C17.R2 sibling conflicts inside a multi-instance role: writes to a shared (captured) object or to a non-partitioned field; goroutines whose result channel is handed back to the caller are joined by a collecting loop there that receives once per started goroutine and has no other way out",
 			"C17.R3 after a send of a pointer/slice/map the sending function does not store through it",
 			"C17.R3b a struct sent by value: every slice/map/pointer it holds (followed through interface boxes and struct locals) that was made before the send is not written through again, by the sender or a helper given the reference or the struct that holds it, on a way back to a send that does not re-make it",
